@@ -86,7 +86,8 @@ func TestIPv4Text(t *testing.T) {
 // ---- subnet / mask ------------------------------------------------------------------
 
 type subnetCase struct {
-	IP  uint32 `json:"ip"`
+	IP     uint32 `json:"ip"`
+	IPBits uint8  `json:"ip_prefix"`
 	Net uint32 `json:"net"`
 	Len uint8  `json:"prefix"`
 }
@@ -100,7 +101,9 @@ func checkSubnet(c subnetCase) []vf.Finding {
 	if std := ipn.Contains(net.IPv4(byte(c.IP>>24), byte(c.IP>>16), byte(c.IP>>8), byte(c.IP))); std != want {
 		return []vf.Finding{vf.F("harness", "oracle-disagrees-with-net-IPNet", "%+v", c)}
 	}
-	x := v4{c.IP, c.Len}.lib()
+	// the address under test carries its own, different prefix length (a host address or
+	// whatever its interface has); membership must depend on the subnet's prefix only
+	x := v4{c.IP, c.IPBits}.lib()
 	sn := v4{c.Net, c.Len}.lib()
 	if got := x.IsInSubnet(sn); got != want {
 		fs = append(fs, vf.F("IPv4.IsInSubnet", "differs-from-prefix-arithmetic", "%s in %s: got %v want %v", v4{c.IP, 32}, v4{c.Net, c.Len}, got, want))
@@ -132,7 +135,7 @@ func TestSubnetBoundariesExhaustive(t *testing.T) {
 				network := n & m
 				bcast := network | ^m
 				for _, a := range []uint32{network, bcast, network - 1, bcast + 1, 0, 0xFFFFFFFF, n, network + 1, bcast - 1, n ^ 0x80000000, n ^ 1} {
-					yield(subnetCase{a, n, uint8(l)})
+					yield(subnetCase{a, uint8((l*7 + 32) % 33), n, uint8(l)})
 				}
 			}
 		}
@@ -157,7 +160,7 @@ func TestSubnetRandom(t *testing.T) {
 			}
 			a = a&mask(l) | rapid.Uint32().Draw(t, "host")&^mask(l)
 		}
-		return subnetCase{a, n, l}
+		return subnetCase{a, uint8(rapid.IntRange(0, 32).Draw(t, "ipbits")), n, l}
 	}, checkSubnet, subnetNontrivial)
 }
 
